@@ -292,6 +292,19 @@ def _config(args):
                             if fail3 or not res3["found"]["calendar"] or not res3["found"]["addressbook"]:
                                 vio("collections-hidden-by-object-in-home-set:%s" % mode, "after an object was stored directly in the home sets the walk from %s no longer reaches the collections (%s)" % (st2, fail3 or res3["found"]), {})
                                 break
+                    if data == "client-props":
+                        # a client that keeps its own settings on ONE of two sibling calendars (order, colour, name), as
+                        # calendar applications do; the other calendar has none of them
+                        wk = last["homes"]["calendar"].rstrip("/") + "/work/"
+                        r1 = w.request("MKCALENDAR", wk)
+                        r2 = w.request("PROPPATCH", wk, dav.XML_CT, dav.proppatch_body(sets=[(dav.P_CALORDER, "2"), (dav.P_CALCOLOR, "#ff0000"), (dav.P_DISPLAYNAME, "Work")]))
+                        for st2 in starts:
+                            res3, fail3 = walk(w, prefix, st2)
+                            stats["walks"] += 1
+                            if r1.status != 201 or fail3 or wk not in res3["found"]["calendar"] or len(res3["found"]["calendar"]) < 2:
+                                vio("calendars-not-discovered-after-client-properties:%s" % mode, "after calendar-order / colour / name were set on one of two calendars (MKCALENDAR %s, PROPPATCH %s) the walk from %s gives %s" % (r1.status, r2.status, st2, fail3 or res3["found"]), {"calendar": wk})
+                                break
+                        written["@found"] = res3["found"] if not fail3 else written.get("@found", last["found"])
                     if data == "retyped":
                         # a path in the home set that was a plain collection, was looked at, was deleted, and is now a calendar / address book
                         wk = last["homes"]["calendar"].rstrip("/") + "/work/"
@@ -336,9 +349,10 @@ def run(tier, workers=None):
         grid += [("/dav/", u, "defaults", "proc", 2, True) for u in PRINCIPALS]
         grid += [(p, "/user/", m, "proc", 1, "stray") for p in PREFIXES[:2] for m in MODES]
         grid += [(p, "/user/", m, f, 1, "retyped") for p in PREFIXES[:2] for m in MODES for f in ("proc", "wsgimod")]
+        grid += [(p, "/user/", m, "proc", 1, "client-props") for p in PREFIXES[:2] for m in MODES]
     else:
         grid = list(itertools.product(PREFIXES, PRINCIPALS, MODES, FRONTS, [0, 1, 2], [False, True]))
-        grid += list(itertools.product(PREFIXES, PRINCIPALS, MODES, FRONTS, [1], ["stray", "retyped"]))
+        grid += list(itertools.product(PREFIXES, PRINCIPALS, MODES, FRONTS, [1], ["stray", "retyped", "client-props"]))
     # the wsgi-module front mutates os.environ / reloads a module: keep those configurations in their own processes too
     ctx = mp.get_context("fork")
     with ctx.Pool(nw, maxtasksperchild=8) as pool:
